@@ -79,3 +79,71 @@ func H_C20_writethrough() {
 	app.Stop()
 	vReach("end")
 }
+
+//verif:witness H_C20_concurrent end
+//verif:bound C20 all concurrent callers: 3 goroutines x 1 call through one sync logger to a console (slow stream) or file appender, pre-emption at every visible operation (atomics, mutexes, file writes, yields) with at most 2 (thorough: 3) pre-emptive switches; immediately after each call returns, its complete line must already be in the target
+//verif:engine-only H_C20_concurrent
+
+// H_C20_concurrent: acknowledged means written, also when calls overlap.
+func H_C20_concurrent() {
+	vOpt("loop", 400)
+	vOpt("schedall", 1)
+	if vTier() > 0 {
+		vOpt("preempt", 3)
+	} else {
+		vOpt("preempt", 2)
+	}
+	root := vFSRoot()
+	defer vFSCleanup()
+	dir := root + "/logs"
+	vFSMkdir(dir)
+	lay := &TextLayout{BaseLayout{FileLineLength: 48}}
+	sink := &vSink{slow: true}
+	saved := Stdout
+	defer func() { Stdout = saved }()
+	var app Appender
+	kind := vChoose("appender", 2)
+	if kind == 0 {
+		Stdout = sink
+		app = &ConsoleAppender{Layout: lay}
+	} else {
+		app = &FileAppender{Layout: lay, FileDir: dir, FileName: "f.log"}
+	}
+	if err := app.Start(); err != nil {
+		panic(err)
+	}
+	all := LevelRange{MinLevel: NoneLevel, MaxLevel: MaxLevel}
+	logger := &SyncLogger{LoggerBase: LoggerBase{Name: "s", Level: all}}
+	logger.AppenderRefs.AppenderRefs = []*AppenderRef{{Appender: app, Level: all}}
+	tag := &Tag{tag: "_t_x", logger: logger}
+	markers := [3]string{"line-one", "line-two", "line-three"}
+	target := func() []byte {
+		if kind == 0 {
+			var c []byte
+			for _, w := range sink.writes {
+				c = append(c, w...)
+			}
+			return c
+		}
+		c, _ := vFSRead(dir, "f.log")
+		return c
+	}
+	ok := [3]bool{}
+	done := make(chan int, 3)
+	for g := 0; g < 3; g++ {
+		go func(g int) {
+			Info(context.Background(), tag, Msg(markers[g]))
+			// crash point: this call has returned
+			ok[g] = vContains(target(), markers[g]+"\n")
+			done <- 1
+		}(g)
+	}
+	for g := 0; g < 3; g++ {
+		<-done
+	}
+	for g := 0; g < 3; g++ {
+		vAssert(ok[g], "acknowledged-line-is-in-the-target-when-the-call-returns")
+	}
+	app.Stop()
+	vReach("end")
+}
